@@ -1805,6 +1805,11 @@ namespace cds { namespace intrusive {
                         }
                         else if ( nCmp == 0 ) {
                             // found
+                            if ( pCur->next( nLevel ).load( memory_model::memory_order_acquire ).bits()) {
+                                // the item is being removed: it may be logically deleted already.
+                                // The slow path helps to remove it and gives the exact answer
+                                return find_fastpath_abort;
+                            }
                             f( *node_traits::to_value_ptr( pCur.ptr()), val );
                             return find_fastpath_found;
                         }
